@@ -719,6 +719,15 @@ class CFG:
         for r in self:
             if len(r.body) == 1 and bucket.get(r.body[0]) == bucket[r.head]:
                 continue
+            if (
+                len(r.body) == 1
+                and self.is_nonterminal(r.body[0])
+                and G[r.head, r.body[0]] == self.R.zero
+            ):
+                # parallel unary rules whose weights cancel: their edge is not in
+                # the graph (so it is in no block); copying them could close a
+                # unary cycle in the output.
+                continue
             new.add(r.w, bot(r.head), *r.body)
 
         # TODO: figure out how to ensure that the new grammar is trimmed by
